@@ -10,6 +10,11 @@ import tlegen
 
 ID = "C09"
 LEAN_TARGETS = ["PV.Props.C09"]
+# T-D: functions translated from the source by harness/pytrans.py, proved equal to the model (DESIGN section 0)
+EQUIV = {"PV.Equiv.TranslatedChecksum": ["checksum_unicode", "checksum_eq", "checksum_eq_outcome", "checksum_none",
+                                         "lineCheckU_plain", "exotic_digit_differs", "superscript_differs"],
+         "PV.Equiv.TranslatedInit": ["read_tle_lines", "read_tle_lines_ok", "read_tle_source", "init_order",
+                                     "init_lines_eq", "init_lines_eq_tleOfLines", "inner_newline_raises"]}
 RULE = ("per TLE the complete single-character corruption table (2 lines x 69 positions x 95 printable ASCII "
         "replacements) through Tle(line1=, line2=); sampled corruptions through a file and a StringIO; "
         "collections of 2-4 entries (with / without name lines, LF / CRLF, one or two files) with exactly one entry "
